@@ -249,6 +249,10 @@ func (e *Exec) execInstr(fr *Frame, b *ssa.BasicBlock, ins ssa.Instruction, st *
 	case *ssa.Alloc:
 		et := x.Type().(*types.Pointer).Elem()
 		if cellLike(x) {
+			if typeKey(et) == "strings.Builder" {
+				k := "G|builder|content"
+				st.heap[k] = sto(e.heapArr(st, k, arrSort(SInt, SStr)), intLit(-1000000-int64(x.Pos())), strLit(""))
+			}
 			st.cells[x] = zeroValue(et)
 			fr.regs[x] = &PtrV{Ty: x.Type(), LV: &LVal{Alloc: x}}
 		} else if at, ok := et.Underlying().(*types.Array); ok {
@@ -264,6 +268,11 @@ func (e *Exec) execInstr(fr *Frame, b *ssa.BasicBlock, ins ssa.Instruction, st *
 			addr := e.allocAddr(st)
 			e.storeObj(st, addr, et, zeroValue(et))
 			fr.regs[x] = &PtrV{Ty: x.Type(), Addr: addr}
+			if typeKey(et) == "strings.Builder" {
+				// the zero Builder is empty
+				k := "G|builder|content"
+				st.heap[k] = sto(e.heapArr(st, k, arrSort(SInt, SStr)), addr, strLit(""))
+			}
 		}
 	case *ssa.Store:
 		p := e.val(fr, x.Addr).(*PtrV)
